@@ -150,9 +150,9 @@ def run(ctx):
         for _ in range(ctx.pick(2, 4)):
             k = rng.choice(["filler", "filler", "multi"])
             if k == "filler":
-                sess.append({"kind": "filler", "sub": rng.choice([".", "a", "a", "a/y", "b/y/q"]), "writes": [[rng.randrange(2), rng.choice([1, eps, eps + 1])] for _ in range(rng.choice([1, 2]))]})
+                sess.append({"kind": "filler", "sub": rng.choice([".", "a", "a", "a/y", "b/y/q"]), "writes": [[rng.randrange(3), rng.choice([1, eps, eps + 1])] for _ in range(rng.choice([1, 2]))]})
             else:
-                sess.append({"kind": "multi", "writers": [[[rng.randrange(2), rng.choice([1, eps + 1])]] for _ in range(rng.choice([1, 2]))]})
+                sess.append({"kind": "multi", "writers": [[[rng.randrange(3), rng.choice([1, eps + 1])]] for _ in range(rng.choice([1, 2]))]})
         plans.append((fmt, eps, sess))
     # directed: a list that has children (from a multi-writer call and a sub-directory session) *and* receives shards of its own
     plans.insert(0, (["fb", "npz", "tfrec"][ctx.seed % 3], 2, [
@@ -160,6 +160,12 @@ def run(ctx):
         {"kind": "filler", "sub": ".", "writes": [[0, 3]]},
         {"kind": "filler", "sub": "a/y", "writes": [[0, 2]]},
         {"kind": "filler", "sub": ".", "writes": [[0, 1], [1, 2]]}]))
+    # directed: splits that are *first* written through sub-directory writers (their split-level list does not exist yet when the
+    # session commits): a multi-writer call and a sub-directory filler, after an ordinary first session
+    plans.insert(1, (["npz", "tfrec", "fb"][ctx.seed % 3], 2, [
+        {"kind": "filler", "sub": ".", "writes": [[0, 3]]},
+        {"kind": "multi", "writers": [[[1, 3]], [[0, 1], [1, 1]]]},
+        {"kind": "filler", "sub": "a/y", "writes": [[2, 3]]}]))
     for ci, (fmt, eps, sess) in enumerate(plans):
         root = ctx.scratch / f"c06_{ci}"
         sp.mk(root, fmt=fmt, eps=eps, hashes=("sha256",))        # (the recovery oracle re-computes sha256 digests)
